@@ -159,10 +159,24 @@ def judge_family(ctx, t, src, tgt, opts, where):
         if not (e <= 1e-7 * scale):
             ctx.fail("spline_does_not_send_source_landmarks_onto_target_landmarks", cls=cls, mech=where, err=e)
     elif isinstance(t, AbstractPWA):
+        # (the judges below presuppose a triangulation: when a source vertex lies inside a triangle it is not a corner of - a
+        # mesh handed over with overlapping triangles - "the" image of that vertex is not defined; such cases are not judged)
+        from vf import refmap as _rm
+        sp_, tl_ = np.asarray(t.source.points, dtype=float), np.asarray(t.trilist)
+        if len(sp_) * len(tl_) <= 200000:
+            w_ = _rm.barycentric(sp_, tl_, sp_)
+            in_ = np.nan_to_num(w_.min(-1), nan=-1.0, neginf=-1.0) > 1e-9
+            for k_, tri_ in enumerate(tl_):
+                in_[tri_, k_] = False
+            if in_.any():
+                ctx.bump("pwa_sources_with_overlapping_triangles_not_judged")
+                return
         e = tx.maxdiff(t.apply(src.copy()), tgt)
         ctx.err("pwa_interpolation", e)
         if not (e <= 1e-7 * scale):
-            ctx.fail("pwa_does_not_send_source_landmarks_onto_target_landmarks", cls=cls, mech=where, err=e)
+            ctx.fail("pwa_does_not_send_source_landmarks_onto_target_landmarks", cls=cls, mech=where, err=e,
+                     source_dtype=str(np.asarray(t.source.points).dtype), target_dtype=str(np.asarray(t.target.points).dtype),
+                     source_max=float(np.abs(np.asarray(t.source.points, dtype=float)).max()), target_max=float(np.abs(np.asarray(t.target.points, dtype=float)).max()), n_tris=int(len(t.trilist)))
         tl = np.asarray(t.source.trilist)
         given = opts.get("_source_arg", None) if isinstance(opts, dict) else None
         if given is not None and getattr(given, "trilist", None) is not None and len(given.points) == len(src):
